@@ -39,6 +39,10 @@ def run(ctx):
     r9 = ctx.rule('R9', 'the command comparator orders the commands that '
                   'lock a join by unique key (truth table)', 'DT')
     completion.comparator_table(ctx, r9)
+    r11 = ctx.rule('R11', 'the output is folded over all completed tasks '
+                   'whatever their number (batches partition the rows; '
+                   'shared with C05.R12)', 'PAIR (arithmetic shape)')
+    _sh.batches_cover_all_rows(ctx, r11)
     r10 = ctx.rule('R10', 'the texts stored as the final state_info / '
                    'result of a failed or cancelled workflow list tasks in '
                    'an order the definition determines', 'QSHAPE')
